@@ -107,6 +107,11 @@ class TBRMMData:
     # the largest geos are iterated first (those with the smallest row index).
     df = df.pivot_table(values=response_column, index='geo', columns='date',
                         fill_value=0)
+    # The numerical routines downstream work on plain numpy numbers, not on
+    # pandas' nullable extension types (Int64, Float64).
+    if any(isinstance(dtype, pd.api.extensions.ExtensionDtype)
+           for dtype in df.dtypes):
+      df = df.astype(float)
 
     # Calculate the average 'market share' based on all data.
     geo_means = df.mean(axis=1).sort_values(ascending=False)
